@@ -6,6 +6,7 @@
 package main
 
 import (
+	"encoding/json"
 	"fmt"
 	"go/ast"
 	"go/parser"
@@ -331,28 +332,79 @@ func CoqBytes(name string, b []byte) string {
 	return CoqZList(name, vs)
 }
 
+// runArea calls one extractor; a panic inside it is a failure like any other
+func runArea(a Area, repo string) (body string, err error) {
+	defer func() {
+		if r := recover(); r != nil {
+			err = fmt.Errorf("extractor panicked: %v", r)
+		}
+	}()
+	return a.Gen(repo)
+}
+
+// gen REPO OUTDIR [STATUS.json] [-update-defaults]
+//
+// Every area is regenerated from the Go sources of REPO.  An area whose extractor no longer understands the shape of the
+// source does NOT stop the run: the last validated output (gen/defaults/<Area>.v, committed; produced from the pristine
+// tree with -update-defaults) is installed instead and the area is reported as degraded in STATUS.json.  The model then is
+// "written by hand" as far as that area is concerned and the correspondence run alone ties it to the code.
 func main() {
 	if len(os.Args) < 3 {
-		fmt.Fprintln(os.Stderr, "usage: gen REPO OUTDIR")
+		fmt.Fprintln(os.Stderr, "usage: gen REPO OUTDIR [STATUS.json] [-update-defaults]")
 		os.Exit(2)
 	}
 	repo, out := os.Args[1], os.Args[2]
+	status, update := "", false
+	for _, a := range os.Args[3:] {
+		if a == "-update-defaults" {
+			update = true
+		} else {
+			status = a
+		}
+	}
+	exe, _ := os.Executable()
+	defaults := filepath.Join(filepath.Dir(filepath.Dir(exe)), "gen", "defaults")
+	if d := os.Getenv("GEN_DEFAULTS"); d != "" {
+		defaults = d
+	}
 	os.MkdirAll(out, 0755)
 	sort.Slice(areas, func(i, j int) bool { return areas[i].Name < areas[j].Name })
+	type st struct {
+		Ok    bool   `json:"ok"`
+		Error string `json:"error,omitempty"`
+	}
+	stat := map[string]st{}
 	rc := 0
 	for _, a := range areas {
-		body, err := a.Gen(repo)
+		body, err := runArea(a, repo)
 		path := filepath.Join(out, a.Name+".v")
+		var text string
 		if err != nil {
 			fmt.Fprintf(os.Stderr, "gen %s: %v\n", a.Name, err)
-			rc = 1
-			continue
+			def, derr := os.ReadFile(filepath.Join(defaults, a.Name+".v"))
+			if derr != nil {
+				stat[a.Name] = st{false, err.Error() + " (and no default output: " + derr.Error() + ")"}
+				rc = 1
+				continue
+			}
+			stat[a.Name] = st{false, err.Error()}
+			text = string(def)
+		} else {
+			stat[a.Name] = st{Ok: true}
+			text = "(* GENERATED by gen/ from the Go sources on every run. Do not edit. *)\nFrom Coq Require Import List ZArith.\nImport ListNotations.\n" + body
+			if update {
+				os.MkdirAll(defaults, 0755)
+				os.WriteFile(filepath.Join(defaults, a.Name+".v"), []byte(text), 0644)
+			}
 		}
-		text := "(* GENERATED by gen/ from the Go sources on every run. Do not edit. *)\nFrom Coq Require Import List ZArith.\nImport ListNotations.\n" + body
 		old, _ := os.ReadFile(path)
 		if string(old) != text {
 			os.WriteFile(path, []byte(text), 0644)
 		}
+	}
+	if status != "" {
+		b, _ := json.MarshalIndent(stat, "", " ")
+		os.WriteFile(status, b, 0644)
 	}
 	os.Exit(rc)
 }
